@@ -259,7 +259,9 @@ def expr_worker(cases, wid, extra):
         v = c["value"]
         out = ["const %s%d = %s;" % (tag, i, text)]
         if 0 <= v < 2 ** 32:
-            out.append("enum E%s%d { E%s%d_a = %s };" % (tag, i, tag, i, text))
+            # a second enumerator refers to the first one of the same enum
+            second = ", E%s%d_b = E%s%d_a + 1" % (tag, i, tag, i) if v + 1 < 2 ** 32 else ""
+            out.append("enum E%s%d { E%s%d_a = %s%s };" % (tag, i, tag, i, text, second))
             out.append("union U%s%d { %s: u8 a; };" % (tag, i, text))
         if 1 <= v <= 64:
             out.append("struct S%s%d { u8 a[%s]; };" % (tag, i, text))
@@ -437,6 +439,9 @@ def expr_worker(cases, wid, extra):
                     ev = getattr(mod, "E%s%d_a" % (tag, i))
                     if ev != v:
                         fail(c, "enumerator (%s)" % txt, "generated enumerator value is %r, expected %d" % (ev, v))
+                    if v + 1 < 2 ** 32 and getattr(mod, "E%s%d_b" % (tag, i)) != v + 1:
+                        fail(c, "enumerator (%s)" % txt, "enumerator defined as <previous enumerator> + 1 is %r, expected %d"
+                             % (getattr(mod, "E%s%d_b" % (tag, i)), v + 1))
                     u = getattr(mod, "U%s%d" % (tag, i))
                     if u._descriptor[0].discriminator != v:
                         fail(c, "discriminator (%s)" % txt, "union discriminator is %r, expected %d"
